@@ -464,7 +464,7 @@ create_type(struct pcf *pcf, struct mark_type *type)
 	}
 
 	for (struct mark_label *l = type->labels; l; l = l->hh.next) {
-		if (pcf_add_value(pcftype, (int) l->value, l->label) == NULL) {
+		if (pcf_add_value(pcftype, l->value, l->label) == NULL) {
 			err("pcf_add_value failed");
 			return -1;
 		}
